@@ -313,6 +313,14 @@ def gen_contract(rng, g, name, node, f, price_key, window=True, take=True, simpl
         key, tk = gen_take(rng, g, lo * f, hi * f, f)
         if key:
             a[key] = tk
+            r_ = rng.random()
+            if r_ < 0.2 and lo >= 0 and hi > 0:
+                # both restrictions for the same period: at least a part of / at most the stated volume
+                other = 'min_take' if key == 'max_take' else 'max_take'
+                v = tk['values'][0]
+                a[other] = {'start': list(tk['start']), 'end': list(tk['end']), 'values': [r2(v * 0.4) if other == 'min_take' else r2(v * 1.6)]}
+            elif r_ < 0.4:
+                a['_take_scalar'] = True          # a single period handed over as plain values instead of one-element lists
     if cap_key is not None and hi > 0:
         # capacity given as a key of the price data (e.g. an availability series): bounds then depend on the data set
         a['max_cap'] = cap_key
